@@ -81,6 +81,15 @@ OPTIONS_AFFECTING_CACHE: Final = (
         "untyped_calls_exclude",
         "enable_incomplete_feature",
         "install_types",
+        # These change which diagnostics are produced, or the rendered text that is
+        # stored in the cache (error_lines), so cached results are not valid across them.
+        "allow_empty_bodies",
+        "deprecated_calls_exclude",
+        "report_deprecated_as_note",
+        "show_absolute_path",
+        "show_error_code_links",
+        "show_error_context",
+        "warn_redundant_casts",
     }
 ) - {"debug_cache"}
 
